@@ -131,7 +131,7 @@ func RunH(spec *HSpec, env *Env) *Result {
 				if mine || env.Shard == 0 {
 					cfg := sc.Cfg
 					res.AddFound(Found{Property: spec.ID, Kind: v.Kind, Sig: v.Sig, Detail: v.Detail,
-						Scenario: sc, Cfg: &cfg, Hist: h})
+						Scenario: sc, Cfg: &cfg, Hist: h, Core: v.Core})
 				}
 			}
 			return len(viol) == 0
